@@ -41,7 +41,7 @@
 #include "corpus.h"
 
 static corpus C;
-static mc_ctr *c_nsmp2,*c_conceal,*c_dnconceal,*c_fork,*c_chains,*c_nsmp,*c_beyond32,*c_states,*c_trans,*c_eval,*c_dn,*c_samples,*c_clipchg,*c_sat16,*c_over24,*c_errs,*c_nonfinite;
+static mc_ctr *c_nsmp2,*c_conceal,*c_dnconceal,*c_fork,*c_chains,*c_resets,*c_nsmp,*c_beyond32,*c_states,*c_trans,*c_eval,*c_dn,*c_samples,*c_clipchg,*c_sat16,*c_over24,*c_errs,*c_nonfinite;
 static mc_ctr *c_pclean,*c_pdirty,*c_psat,*c_pmaxdev,*c_pmaxratio,*c_pcmp,*c_pwrap;
 static mc_set *S_obs,*S_cls;
 static const int FSD[5]={8000,12000,16000,24000,48000};
@@ -177,14 +177,18 @@ done:
  * (2.5 ms pieces for shorter packets); 2,3,4: 1,2,3 consecutive packets lost and rebuilt from the NEXT packet with decode_fec=1 and
  * frame_size = the lost duration (1x, 2x, 3x), after which that packet is decoded normally. */
 typedef struct { int pos,shape; } lossev;
-static const char *const SHAPEN[5]={"PLC whole packet","PLC in 10 ms pieces","FEC 1x from next packet","FEC 2x from next packet","FEC 3x from next packet"};
-static int ev_span(const lossev *e){ return e->shape<2?1:e->shape-1; }
+static const char *const SHAPEN[6]={"PLC whole packet","PLC in 10 ms pieces","FEC 1x from next packet","FEC 2x from next packet","FEC 3x from next packet","OPUS_RESET_STATE before the packet"};
+/* shape 5 (span 0): OPUS_RESET_STATE on all three twins before packet pos, which is then decoded normally: the 16-bit relation must hold
+   with the soft-clip memory of a NEW decoder ("after OPUS_RESET_STATE ... like a newly created one"), whatever the previous frame left */
+static int ev_span(const lossev *e){ return e->shape==5?0:e->shape<2?1:e->shape-1; }
 static int g_lossmode=1, g_cfgmask=0x3ff;
 /* runs one chain on fresh twins; returns 0 on a recorded failure */
 static int run_chain(T3 *t,const pref *seq,int ns,const lossev *ev,int nev){
    int i=0,e; char what[160];
    while(i<ns){
       for(e=0;e<nev;e++) if(ev[e].pos==i) break;
+      if(e<nev&&ev[e].shape==5){ int k2; for(k2=0;k2<3;k2++){ int r= t->ms? opus_multistream_decoder_ctl(t->d[k2],OPUS_RESET_STATE) : opus_decoder_ctl(t->d[k2],OPUS_RESET_STATE); if(r!=OPUS_OK){ mc_fail("reset_failed","%s reset -> %d",t->ctx,r); return 0; } }
+         memset(t->cand,0,sizeof t->cand); t->ncand=1; MC_INC(c_resets); e=nev; }
       if(e<nev){ int k=ev_span(&ev[e]),j,dur=0,fs=t->fsd;
          for(j=0;j<k;j++){ int d=opus_packet_get_nb_samples(seq[i+j].d,seq[i+j].len,fs); if(d<=0) return 1; dur+=d; }
          if(ev[e].shape==0){ snprintf(what,sizeof what,"lost packet %d: %s",i,SHAPEN[0]); if(!t3_step(t,what,i,&seq[i],NULL,0,dur,0,1)) return 0; }
@@ -204,11 +208,12 @@ static void all_chains(mk_fn make,void *u,const pref *seq,int ns,int npos){
    T3 t; lossev ev[2]; int p,sh,p2,sh2;
    if(!make(&t,u)) return; MC_INC(c_chains); run_chain(&t,seq,ns,NULL,0); t3_destroy(&t);
    if(!g_lossmode) return;
-   for(p=0;p<npos;p++) for(sh=0;sh<5;sh++){ int ok;
+   for(p=0;p<npos;p++) for(sh=0;sh<6;sh++){ int ok;
+      if(sh==5&&p==0) continue;
       ev[0].pos=p; ev[0].shape=sh; if(p+ev_span(&ev[0])>(sh<2?ns:ns-1)) continue;
       if(!make(&t,u)) return; MC_INC(c_chains); ok=run_chain(&t,seq,ns,ev,1); t3_destroy(&t);
       if(!ok||g_lossmode<2) continue;
-      for(p2=p+ev_span(&ev[0])+1;p2<=p+ev_span(&ev[0])+2&&p2<npos;p2++) for(sh2=0;sh2<5;sh2++){
+      for(p2=p+ev_span(&ev[0])+1;p2<=p+ev_span(&ev[0])+2&&p2<npos;p2++) for(sh2=0;sh2<6;sh2++){
          ev[1].pos=p2; ev[1].shape=sh2; if(p2+ev_span(&ev[1])>(sh2<2?ns:ns-1)) continue;
          if(!make(&t,u)) return; MC_INC(c_chains); run_chain(&t,seq,ns,ev,2); t3_destroy(&t); }
    }
@@ -404,7 +409,7 @@ int main(int argc,char **argv){
    c_errs=mc_counter("packets_all_return_same_error"); c_nsmp=mc_counter("sample_candidates");
    S_obs=mc_set_new(24); S_cls=mc_set_new(14);
    if(!strcmp(mode,"dec")||!strcmp(mode,"msdec")){
-      c_samples=mc_counter("samples_compared"); c_clipchg=mc_counter("samples_changed_by_soft_clip"); c_sat16=mc_counter("samples_saturated_16bit"); c_over24=mc_counter("samples_beyond_2p23_in_24bit"); c_nonfinite=mc_counter("samples_nonfinite_skipped"); c_beyond32=mc_counter("samples_float_beyond_int32_in_24bit"); c_conceal=mc_counter("concealment_calls_compared"); c_dnconceal=mc_counter("distinct_nontrivial_concealment_outputs"); c_fork=mc_counter("losses_with_nonzero_softclip_memory"); c_chains=mc_counter("chains"); c_nsmp2=mc_counter("sample_candidates_concealment");
+      c_samples=mc_counter("samples_compared"); c_clipchg=mc_counter("samples_changed_by_soft_clip"); c_sat16=mc_counter("samples_saturated_16bit"); c_over24=mc_counter("samples_beyond_2p23_in_24bit"); c_nonfinite=mc_counter("samples_nonfinite_skipped"); c_beyond32=mc_counter("samples_float_beyond_int32_in_24bit"); c_conceal=mc_counter("concealment_calls_compared"); c_dnconceal=mc_counter("distinct_nontrivial_concealment_outputs"); c_fork=mc_counter("losses_with_nonzero_softclip_memory"); c_chains=mc_counter("chains"); c_resets=mc_counter("resets_inside_chains"); c_nsmp2=mc_counter("sample_candidates_concealment");
       g_lossmode=(int)mc_arg("--loss",1); g_cfgmask=(int)mc_arg("--cfgs",0x3ff);
    }
    if(!strcmp(mode,"dec")){
